@@ -250,7 +250,8 @@ def all_families(nws=(1, 2, 3)):
         out += [request_reply(nw, 1), request_reply(nw, 2), message_during_spawn(nw), send_to_finished(nw), filter_fails(nw),
                 abandoned_await(nw), abandoned_await_msg(nw), fail_multi_worker_select(nw), fail_already_failed_multi(nw),
                 shared_target(nw), shared_target(nw, True), shared_failing_target(nw), await_window(nw),
-                fail_during_filter_effect(nw, True), fail_during_filter_effect(nw, False), burst(40, nw), reawait(nw, True), reawait(nw, False)]
+                fail_during_filter_effect(nw, True), fail_during_filter_effect(nw, False),
+                fail_during_filter_effect(nw, True, True), fail_during_filter_effect(nw, False, True), burst(40, nw), reawait(nw, True), reawait(nw, False)]
         out += heap_cases(nw)
         out += [bin_final_send(nw), bin_final_send_tuple(nw)]
         out += session_cases(nw)
@@ -833,7 +834,7 @@ def await_window(nw=2):
     return meta(scenario("await_window_w%d" % nw, scripts, nw=nw, maxpid=4), True, False, ["C04", "C05", "C03"], large=True)
 
 
-def fail_during_filter_effect(nw=2, deferred=True):
+def fail_during_filter_effect(nw=2, deferred=True, failing=False):
     # a select lists an awaited process and a receive source whose FILTER calls an effect builtin; the awaited
     # process fails while the effect is in flight, so the awaiter is failed while parked in `effecting` inside
     # the filter, and the completion arrives for a process without frames (seeded change C15-3: the completion
@@ -842,9 +843,9 @@ def fail_during_filter_effect(nw=2, deferred=True):
     scripts = [[spawn(1, 2), spawn(2, 3, r(1)), send(2, c(I(5))), spawn(3, 4), select(4, aw(3)), select(5, aw(2), tmo(3)),
                 ret(r(4))],
                [select(1, tmo(1)), fail()],
-               [select(2, aw(1), recv(("int",), body="effect")), ret(r(2))],
+               [select(2, aw(1), recv(("int",), body="effect_fail" if failing else "effect")), ret(r(2))],
                [select(1, tmo(2)), ret(c(I(7)))]]
-    s = scenario("fail_during_filter_effect%s_w%d" % ("_deferred" if deferred else "", nw), scripts, nw=nw, maxtick=4,
+    s = scenario("fail_during_filter_effect%s%s_w%d" % ("_failing" if failing else "", "_deferred" if deferred else "", nw), scripts, nw=nw, maxtick=4,
                  io=True, maxpid=4)
     if deferred:
         s["deferred_io"] = True
